@@ -6,7 +6,7 @@ from vf.rustcut import SourceFile, Undecided
 
 NAME = "U-branch"
 TOOL = "kani"
-PROPS = ["C01", "C15"]
+PROPS = ["C01", "C15", "C02"]
 TRUSTED = ["kani 0.68 / cbmc 6.11 (bit-precise; a, b range over all u8, flags over all values: complete)",
            "A-isa: CMP sets C = (a >= b unsigned), Z = (a == b), N = bit 7 of a-b; a load sets Z/N from the value; branch conditions BEQ Z, BNE !Z, BMI N, BPL !N, BCS C, BCC !C"]
 
@@ -89,6 +89,25 @@ H_ALT = """    #[kani::proof] #[kani::unwind(8)]
         assert!(reaches(&g, n, z, c) == expect);
     }
 """
+H_ORD = """    #[kani::proof] #[kani::unwind(8)]
+    fn branch_unprotected_eq_is_last() {      // the optimizer folds `CMP #k ; BEQ/BNE` away when the register's value is known: an unprotected BEQ/BNE must be the LAST reader of the compare's flags
+        let k: u8 = kani::any(); kani::assume(k < 6); let signed: bool = kani::any();
+        let op = match k { 0 => Operation::Eq, 1 => Operation::Neq, 2 => Operation::Lt, 3 => Operation::Lte, 4 => Operation::Gt, _ => Operation::Gte };
+        let mut g = GeneratorState::new();
+        let r = g.generate_branch_instruction(&op, signed, "L");
+        assert!(r.is_ok());
+        let mut i = 0;
+        while i < 6 {
+            if let Rec::Branch(m, _, p) = g.rec[i] {
+                if (m == BEQ || m == BNE) && !p {
+                    let mut j = i + 1;
+                    while j < 6 { assert!(!matches!(g.rec[j], Rec::Branch(_, _, _))); j += 1; }
+                }
+            }
+            i += 1;
+        }
+    }
+"""
 H_TAB = """    #[kani::proof]
     fn %(name)s() {
         let a: i16 = kani::any(); let b: i16 = kani::any(); let negate: bool = kani::any(); let switch: bool = kani::any();
@@ -107,6 +126,7 @@ def build(repo):
               "src/generate/generate_conditions.rs: GeneratorState::generate_condition_ex (`let opx = …;` and `let operator = …;` tables, R8)"],
              assumptions=["A-isa flag semantics of CMP / loads / branches (in the harness)", "A-local-label: format!(\".ifhere{}\", n) yields a text starting with '.', distinct from the target label",
                           "R6: asm()/label() are recording shims (which branch, to the target or to a local label, protected or not)",
+                          "the optimizer's compare-folding rule (U-opt: opt-both-sound) is sound in context only if the folded BEQ/BNE is the last reader of the compare: that is the obligation branch-unprotected-eq-is-last here",
                           "composition (expression evaluation order, register liveness, the generator's flags belief, loop/switch/call lowering, scoping) is NOT decided: whole-generator semantics"],
              bounded=["the 6-entry recording buffer is interpreted by a loop unwound 8 times with unwinding assertions: complete for these straight-line emitters"])
     f = SourceFile(repo, "src/generate/generate_conditions.rs")
@@ -146,6 +166,8 @@ def build(repo):
         nm = "tables_%s" % lo
         hs.append(H_TAB % {"name": nm, "op": op})
         u.harnesses[nm] = (["C01", "C15"], "cond-tables-%s" % lo, "negate yields the complementary operator, switch the mirrored one (a %s b == b mirrored a), all i16 a, b" % cop[op])
+    hs.append(H_ORD)
+    u.harnesses["branch_unprotected_eq_is_last"] = (["C02", "C01"], "branch-unprotected-eq-is-last", "after a compare, an unprotected BEQ/BNE is followed by no other branch on the same flags (the optimizer may fold the compare and that branch away), all operators, signed and unsigned")
     u.harnesses["canary_must_fail"] = (["C00"], "canary", "deliberately false")
     text = SHIM % {"operation": op_enum, "mnemonic": mn_enum, "fns": "\n".join(fns), "opx": opx, "operator": operator, "harnesses": "\n".join(hs)}
     text = text.replace("pub(crate) enum", "pub enum")
@@ -159,6 +181,11 @@ def lift(harness, vals):
     """Counterexample -> a C program exercising the comparison on the real compiler; the emitted code is then run on the 6502
     interpreter (vf/sim6502.py) from the counterexample's operand values and compared with C semantics."""
     cop = {"eq": "==", "neq": "!=", "lt": "<", "lte": "<=", "gt": ">", "gte": ">="}
+    if harness == "branch_unprotected_eq_is_last":
+        # a compare of a register whose value the optimizer knows, with the carry clear on entry: -O1 must compute what -O0 computes
+        return {"source": "unsigned char i, rx, ry;\nvoid main() { Y = i + 1; for (X = 10; X > 2; X--) Y++; rx = X; ry = Y; }\n", "args": ["-O1"], "expect": {"panic": False},
+                "simulate": {"init": {"i": 0}, "expect": {"rx": 2, "ry": 9}},
+                "note": "known register compared with an immediate (the optimizer folds CMP + BEQ/BNE); the loop must run 8 times at every optimisation level"}
     m = re.match(r"branch_(cmp|alt)_(\w+?)_(u|s)(?:_(?:noovf|ovf))?$", harness)
     if not m:
         return None
